@@ -139,6 +139,30 @@ def check(case):
                          % (n, wn_t.size))
             elif np.asarray(A.binWidths).shape != (n,):
                 out.fail('tied-rows-kept@widths,' + src, 'widths have shape %s for %d rows' % (np.asarray(A.binWidths).shape, n))
+            else:
+                # the binner made from this observation has one bin per row, each with its own width (two bins of one
+                # centre and different widths: a photometric band over a spectroscopic bin)
+                bw = np.asarray(A.binWidths, dtype=float)
+                binner = cut(out, 'create_binner', A.create_binner)
+                lo_, hi_ = float((wn_t - bw / 2).min()), float((wn_t + bw / 2).max())
+                ed = np.linspace(lo_ - 0.02 * (hi_ - lo_), hi_ + 0.02 * (hi_ - lo_), 301)
+                nat, nw_ = (ed[:-1] + ed[1:]) / 2, np.diff(ed)
+                f_ = 1.0 + np.sin(nat / (hi_ - lo_) * 9.0)
+                res = cut(out, 'bindown', binner.bindown, nat.copy(), f_.copy(), grid_width=nw_.copy())
+                got = np.asarray(res[1], dtype=float)
+                if got.shape != (n,) or not np.array_equal(np.asarray(res[0], dtype=float), wn_t):
+                    out.fail('tied-rows-kept@binner,' + src, '%d rows, the binner returns %s values' % (n, got.shape))
+                else:
+                    gw = np.asarray(res[3], dtype=float) if len(res) > 3 and res[3] is not None else bw
+                    pairs_got = sorted(zip(np.asarray(res[0], dtype=float).tolist(), gw.tolist(), np.round(got, 9).tolist()))
+                    pairs_want = []
+                    for i in range(n):
+                        val, _, tot, _, _ = overlap_mean(nat - nw_ / 2, nat + nw_ / 2, f_, wn_t[i] - bw[i] / 2, wn_t[i] + bw[i] / 2)
+                        pairs_want.append((float(wn_t[i]), float(bw[i]), float(np.round(val, 9)) if tot > 0 else None))
+                    for (a0, a1, a2), (b0, b1, b2) in zip(pairs_got, sorted(pairs_want, key=lambda x: (x[0], x[1]))):
+                        if a0 != b0 or not close(a1, b1, rtol=1e-12) or (b2 is not None and not close(a2, b2, rtol=1e-7)):
+                            out.fail('tied-rows-kept@binner-values,' + src, 'bin (%r, width %r) gives %r; overlap mean over that bin %r' % (a0, a1, a2, b2))
+                            break
         except CutError:
             pass
         finally:
